@@ -262,9 +262,14 @@ def c_iter(m):
             f"{c_optq(m['stall'])} {noisy})")
 
 
-def c_inputs(P):
+def c_inputs_parts(P):
     ic = clist([f"(mkIC {c_eval(c['ev'])} {cbool(c['record'])})" for c in P["init_calls"]])
-    return f"{cz(P['k0'])} {cz(P['ks0'])} {c_opts(P['opts'])} {ic} {cq(P['fsd0'] if P['fsd0'] is not None and not math.isnan(P['fsd0']) else 0.0)} {clist([c_iter(m) for m in P['iters']])}"
+    return [cz(P['k0']), cz(P['ks0']), c_opts(P['opts']), ic, cq(P['fsd0'] if P['fsd0'] is not None and not math.isnan(P['fsd0']) else 0.0),
+            clist([c_iter(m) for m in P['iters']])]
+
+
+def c_inputs(P):
+    return " ".join(c_inputs_parts(P))
 
 
 def c_final(P):
